@@ -702,6 +702,14 @@ func (cc *ChunkCollection) ToMarkdownWithOptions(opts MarkdownOptions) string {
 			// Write chunk with section heading
 			sb.WriteString(chunk.ToMarkdownWithOptions(opts))
 		} else {
+			if chunk.isSectionHeading() {
+				// The heading of a section that has the title of the section before
+				// it ("Overview" under one chapter, "Overview" again under the next):
+				// it opens a section of its own, so it is written as a heading, not
+				// as text
+				sb.WriteString(chunk.ToMarkdownWithOptions(opts))
+				continue
+			}
 			// Write chunk without section heading (to avoid duplicates)
 			chunkOpts := opts
 			// Create a temporary chunk without section title for content-only output
@@ -710,6 +718,15 @@ func (cc *ChunkCollection) ToMarkdownWithOptions(opts MarkdownOptions) string {
 	}
 
 	return sb.String()
+}
+
+// isSectionHeading reports whether the chunk is the heading that opens its
+// section (as the document chunker creates one for every heading), as opposed
+// to content that merely belongs to a section with a title.
+func (c *Chunk) isSectionHeading() bool {
+	return c.Metadata.Level == ChunkLevelSection &&
+		len(c.Metadata.ElementTypes) == 1 && c.Metadata.ElementTypes[0] == "heading" &&
+		c.Metadata.SectionTitle != "" && strings.TrimSpace(c.Text) == c.Metadata.SectionTitle
 }
 
 // contentToMarkdown outputs just the chunk content without section heading
